@@ -5,6 +5,7 @@ pub mod c17;
 pub mod c18;
 pub mod c19;
 pub mod pk;
+pub mod svc;
 pub mod own;
 pub mod wr;
 pub mod rfc;
@@ -19,6 +20,8 @@ pub fn cases(prop: &str, tier: &str, seed: u64) -> Option<Vec<Case>> {
         "C08" => c08::cases(tier, seed),
         "C18" => c18::cases(tier, seed),
         "C19" => c19::cases(tier, seed),
+        "C14" => svc::c14(tier, seed),
+        "C15" => svc::c15(tier, seed),
         "C16" => own::c16(tier, seed),
         "C12" => own::c12(tier, seed),
         "C04" => wr::c04(tier, seed),
